@@ -35,6 +35,10 @@ func (x *Exec) execCall(f *Frame, i *ssa.Call) {
 			return
 		}
 	}
+	if callee != nil && callee.Pkg != nil && callee.Pkg.Pkg.Path() == "encoding/binary" && (callee.Name() == "PutUint64" || callee.Name() == "PutUint32") && len(c.Args) == 3 {
+		x.execPutUint(f, i, callee)
+		return
+	}
 	if callee != nil && callee.Pkg != nil && callee.Pkg.Pkg.Path() == "google.golang.org/protobuf/proto" && (callee.Name() == "Unmarshal" || callee.Name() == "Marshal") {
 		x.execProto(f, i, callee)
 		return
@@ -355,6 +359,7 @@ func (x *Exec) callContract(f *Frame, callee *ssa.Function, con *Contract, args 
 	pre := x.cur.clone()
 	env := x.newEnv(vars, pre, pre)
 	env.fnPos = token.NoPos
+	env.specPkg = contractPkg(con)
 	// receiver non-nil
 	if callee.Signature.Recv() != nil && len(args) > 0 {
 		if _, ok := callee.Signature.Recv().Type().Underlying().(*types.Pointer); ok && !con.Trusted {
@@ -457,6 +462,7 @@ func (x *Exec) callContract(f *Frame, callee *ssa.Function, con *Contract, args 
 		x.cur.reach = x.b.Def("reach_nopanic", And(x.cur.reach, Not(panicked)))
 	}
 	penv := x.newEnv(post, x.cur.clone(), pre)
+	penv.specPkg = contractPkg(con)
 	penv.fnPos = token.NoPos
 	for _, e := range con.Ensures {
 		x.assumeSpec(x.cur.reach, e.Expr, penv, "ensures of "+short+": "+e.Src)
@@ -654,6 +660,7 @@ func (x *Exec) execInvoke(f *Frame, i *ssa.Call) {
 		post[fmt.Sprintf("result%d", k)] = tv
 	}
 	penv := x.newEnv(post, x.cur.clone(), pre)
+	penv.specPkg = contractPkg(con)
 	for _, e := range con.Ensures {
 		x.assumeSpec(x.cur.reach, e.Expr, penv, "ensures of "+key+": "+e.Src)
 	}
@@ -1147,4 +1154,51 @@ func (x *Exec) execSprintf(f *Frame, i *ssa.Call) bool {
 	f.regs[i] = Val{T: r}
 	x.note("fmt.Sprintf with a constant format and integer/string arguments is a deterministic (uninterpreted) function of its arguments")
 	return true
+}
+
+// execPutUint: binary.LittleEndian.PutUint64(b, v) and friends overwrite the first bytes of b; for a
+// destination of exactly that width (checked) the new content is the uninterpreted encoding of v.
+func (x *Exec) execPutUint(f *Frame, i *ssa.Call, callee *ssa.Function) {
+	c := &i.Call
+	width := 8
+	if callee.Name() == "PutUint32" {
+		width = 4
+	}
+	order := "le"
+	if strings.Contains(strings.ToLower(c.Args[0].Type().String()), "bigendian") {
+		order = "be"
+	}
+	dstV := c.Args[1]
+	base := x.val(f, dstV)
+	old := base.T
+	v := x.term(f, c.Args[2])
+	if !x.noSafety() {
+		x.obligeGround(f, "bounds", x.safetyTags(), x.cur.reach, mk(SBool, "(>= %s %d)", x.strLen(nil, old), width), "binary.PutUint: destination too short", i.Pos())
+	}
+	fn := fmt.Sprintf("u_%s%d", order, width*8)
+	x.b.DeclFun(fn, []Sort{SInt}, SStr)
+	enc := App(SStr, fn, v)
+	nw := x.b.Fresh("putuint", SStr)
+	x.assume(x.cur.reach, And(mk(SBool, "(= (str_len %s) (str_len %s))", nw, old), Not(Eq(nw, Term{"bytes_nil", SStr})),
+		mk(SBool, "(= (str_len %s) %d)", enc, width),
+		Implies(mk(SBool, "(= (str_len %s) %d)", old, width), Eq(nw, enc))))
+	if base.prov != nil {
+		x.cur.locals[base.prov] = nw
+	}
+	f.regs[dstV] = Val{T: nw, prov: base.prov}
+	for vv, r := range f.regs {
+		if r.T.S == old.S && r.LV == nil && vv != dstV {
+			r.T = nw
+			f.regs[vv] = r
+		}
+	}
+	x.note("encoding/binary PutUint64/PutUint32 on a destination of exactly that width: content becomes the (uninterpreted, injectivity not assumed) fixed-width encoding of the value")
+}
+
+// contractPkg: the package a contract was written for (type names in its clauses resolve there).
+func contractPkg(con *Contract) string {
+	if i := strings.Index(con.Key, "::"); i > 0 {
+		return con.Key[:i]
+	}
+	return ""
 }
